@@ -4,6 +4,8 @@ import FM.Model.Sentence
 import FM.Model.Frontmatter
 import FM.Model.Config
 import FM.Model.FillText
+import FM.Model.Quotes
+import FM.Model.Ellipses
 /-
   One operation per input line, one canonical answer per output line.
 -/
@@ -101,6 +103,25 @@ def step (line : String) : String :=
                                  word := fun c => (look c / 4) % 2 == 1 }
           encBool (isSentenceEnd cls w)
       | none => bad
+  | ["quotes", t, fl] =>
+      -- fl: per character of t, '1' if it is a `\\w` character
+      match decStr t with
+      | some t =>
+          let ds := fl.toList
+          if ds.length != t.length then bad else
+          let tbl := t.zip ds
+          let isWord (c : Char) : Bool := match tbl.find? (·.1 == c) with | some (_, d) => d == '1' | none => false
+          encStr (smartQuotes isWord t)
+      | none => bad
+  | ["ellipses", t, fl, times] =>
+      match decStr t, decNat times with
+      | some t, some times =>
+          let ds := fl.toList
+          if ds.length != t.length then bad else
+          let tbl := t.zip ds
+          let isWord (c : Char) : Bool := match tbl.find? (·.1 == c) with | some (_, d) => d == '1' | none => false
+          encStr ((List.range times).foldl (fun acc _ => ellipses isWord acc) t)
+      | _, _ => bad
   | _ => bad
 
 partial def loop (hin hout : IO.FS.Stream) : IO Unit := do
